@@ -48,7 +48,7 @@ CLAIMED.update({
          "Seeded search over (sequences, cut positions, delivery permutation, duplicates, drops, out-of-range ids, time between deliveries, cleanup calls) plus exhaustive arrival orders of single sequences. Oracle: Some(result) exactly at the delivery that completes the model's record, None elsewhere; result classified as original / ascending-id concatenation (known finding) / other; pending_count and cleanup_expired agree with the model. Sampling plus small exhaustive enumerations, not proof.",
          "Trusted: tokio paused clock; the simulator's fragmenter (numbers fragments N..1 in stream order as the protocol document prescribes).",
          "DESIGN.md section 3, C09"),
- "C16": ("deterministic simulation of thread schedules: real PidAllocator::allocate and Node::make_reference on shuttle threads (std Mutex/atomics switched to shuttle's under a cfg): DFS over every schedule for 2-thread configurations, seeded random and PCT schedules for up to 4 threads x 3 calls, counters started at 1 / around the 2^20 wrap / before the serial's 32-bit wrap; single-thread multi-wrap history",
+ "C16": ("deterministic simulation of thread schedules: real PidAllocator::allocate and Node::make_reference on shuttle threads (std Mutex/atomics switched to shuttle's under a cfg): DFS over every schedule for 2-thread configurations, seeded random and PCT schedules for up to 4 threads x 3 calls, counters started at 1 / around the 2^20 wrap / before the serial's 32-bit wrap; single-thread multi-wrap history and long reference history; plus node-level histories on the simulated network (identifiers from spawn, reply identifiers of remote calls as the peer sees them, references from monitor; calls before start, EPMD handing out the creation already in force, failed and timed-out calls)",
          "Every explored schedule ends with the oracle: all returned (number, serial) pairs pairwise distinct, every identifier carries the creation set before the threads started, all reference word-vectors and words pairwise distinct. The 2x1 configurations are enumerated exhaustively by shuttle's DFS scheduler (reported per configuration with exhausted=true/false); larger ones are sampled by seeded random and PCT schedulers; failing schedules are persisted and replayed with shuttle::replay_from_file. Sampling plus small exhaustive enumerations, not proof.",
          "Trusted: shuttle (treats all atomic orderings as SeqCst: weak-memory effects are not explored), the shadow manifests build the same sources as /repo.",
          "DESIGN.md section 3, C16"),
